@@ -178,8 +178,8 @@ Example C08_dt_ex_date_in_lex :
   /\ xs_date s' = Some (mkdate 2024 2 29) /\ strptime_ymd s' = Some (mkdate 2024 2 29).
 Proof. vm_compute. repeat split; reflexivity. Qed.
 
-(** ---- 6. totality: the reader's outcome is a ValidationError when the regex
-    does not match, and otherwise depends only on the validity of the scanned
+(** ---- 6. totality: the reader's outcome is a ValidationError when the (anchored)
+    regex does not match the whole text, and otherwise depends only on the validity of the scanned
     fields [dt_fields s]: Ok, or the ValueError of datetime(...) /
     pytz.FixedOffset(...) escaping (the escape property C10 is about).  No
     other exception is possible. *)
@@ -228,6 +228,24 @@ Example C08_dt_ex_datetime_crash :
   /\ dt_fields s2 = Some (mkdt (mkdate 2020 1 1) (mktod 0 0 0 0) (Some 1440))
   /\ datetime_from_unicode_iso [120] = VFault /\ dt_fields [120] = None.
 Proof. vm_compute. repeat split; reflexivity. Qed.
+
+(** ---- 7. no trailing text is ignored (repaired readers: the regexes end in \Z):
+    any accepted text extended by text that cannot continue a literal (first
+    character not a digit, '.', 'Z', '+' or '-') is a ValidationError *)
+Theorem C08_dt_datetime_no_trailing_junk : forall s v c junk,
+  datetime_from_unicode_iso s = Ok v ->
+  is_digit c = false -> c <> 46 -> c <> 90 -> c <> 43 -> c <> 45 ->
+  datetime_from_unicode_iso (s ++ c :: junk) = VFault.
+Proof. exact datetime_no_trailing_junk. Qed.
+
+(** "2020-01-01T00:00:00+01:00" is read; followed by " x" or "junk" it is rejected *)
+Example C08_dt_ex_datetime_no_trailing_junk :
+  let s := [50; 48; 50; 48; 45; 48; 49; 45; 48; 49; 84; 48; 48; 58; 48; 48; 58; 48; 48; 43; 48; 49; 58; 48; 48] in
+  datetime_from_unicode_iso s = Ok (mkdt (mkdate 2020 1 1) (mktod 0 0 0 0) (Some 60))
+  /\ datetime_from_unicode_iso (s ++ [32; 120]) = VFault
+  /\ datetime_from_unicode_iso (s ++ [106; 117; 110; 107]) = VFault
+  /\ is_digit 32 = false.
+Proof. vm_compute. auto. Qed.
 
 (** the two smaller readers *)
 Theorem C08_dt_time_only_valueerror : forall s e, time_from_unicode s = Crash e -> e = ValueError.
